@@ -1,5 +1,6 @@
 """Engine of vcheck: TLC design check + case generation -> real-code runs -> TLC trace
 validation -> reproduction -> verdict -> evidence.  See DESIGN.md sections 5 and 6."""
+import zlib
 import sys, os, json, re, subprocess, time, shutil, tempfile, random, hashlib, glob
 from concurrent.futures import ThreadPoolExecutor
 
@@ -145,18 +146,29 @@ def generate_cases(ctx, stage):
         gs, gd = parse_states(out)
         errs = tlc_errors(out)
         n0 = len(cases)
+        keep = int(r.get("keep", 1))
+        ndumped = 0
         with open(out, errors="replace") as f:
             for line in f:
                 m = RX_CASE.match(line.rstrip("\n"))
                 if not m:
                     continue
                 raw = tla_unquote(m.group(1))
+                ndumped += 1
+                # keep=k: of the cases a big configuration dumps only every k-th is taken up (chosen by a hash of the case
+                # and the seed, so the choice is the same in every run with that seed): TLC still checks the design
+                # invariants in every state, the orchestrator just does not hold millions of cases in memory
+                if keep > 1 and zlib.crc32(raw.encode()) % keep != ctx["seed"] % keep:
+                    continue
                 if raw in seen:
                     continue
                 seen.add(raw)
                 cases.append(json.loads(raw))
-        log("  gen %-22s %-8s rc=%d states=%d distinct=%d cases=%d  %.1fs" %
-            (r["cfg"], mode, rc, gs, gd, len(cases) - n0, time.time() - t0))
+        log("  gen %-22s %-8s rc=%d states=%d distinct=%d cases=%d%s  %.1fs" %
+            (r["cfg"], mode, rc, gs, gd, len(cases) - n0, (" (of %d dumped, keep=1/%d)" % (ndumped, keep)) if keep > 1 else "",
+             time.time() - t0))
+        if keep > 1:
+            ctx["exhaustive"] = False
         if rc == 150 or any("Parsing or semantic analysis failed" in e for e in errs):
             raise Infra("TLC could not parse %s: %s" % (r["module"], " | ".join(e.strip()[:300] for e in errs[:2])))
         if r.get("expect_violation") and not any("is violated" in e for e in errs):
